@@ -20,7 +20,10 @@ RULE = ("(a) Hypothesis RuleBasedStateMachine: rules new_solver(problem recipe, 
         "Problems have N=1..7 or are shipped benchmark problems (incl. Grishagin); SolverParameters.startPoint and "
         "refineSolution may be set; a solver may be handed the very SolverParameters object of another live solver, or "
         "none at all (the shared default). Non-trivial (a): a Solution was read, then another solver was created or stepped, then the first Solution "
-        "was checked again. Distinct = distinct rule sequence / (problems, interleaving).")
+        "was checked again. (c) pairs of solvers holding ONE SolverParameters object (half of the parameter sets push "
+        "the first solver to the float resolution of the curve coordinate, some refine), driven by every order of "
+        "{Solve A, Solve B, step A, step B}: evaluation logs and results must equal those of the same calls with a "
+        "parameters object per solver. Distinct = distinct rule sequence / (problems, interleaving).")
 ASSUMPTIONS = [
     "solo references are computed in the same process (other solvers exist but are idle)",
     "steps are capped at 40 trials per solver; Solve on a stepped solver continues to max(steps, n*)",
@@ -32,7 +35,8 @@ CAP = 70
 
 
 def plan(tier):
-    return [("machine", 12, (360 if tier == "quick" else 7200) // 12), ("interleavings", 4, 3 if tier == "quick" else 40)]
+    return [("machine", 12, (360 if tier == "quick" else 7200) // 12), ("interleavings", 4, 3 if tier == "quick" else 40),
+            ("shared_pairs", 4, (400 if tier == "quick" else 8000) // 4)]
 
 
 @st.composite
@@ -217,6 +221,10 @@ class IsolationMachine(MachineMixin, RuleBasedStateMachine):
             fail("Solve on solver %d (after %d stepped trials) made the log %d long; alone it stops at %d" %
                  (i, lv.steps, len(lv.run.problem.log), want))
         lv.steps = want
+        if "Exception was thrown" in lv.run.stdout():
+            # the search ended in the method's own float-resolution error, not in the stop criterion: what a further
+            # call does is not covered by the statement, so this solver is left alone from here on
+            lv.dead = True
         lv.solutions.append(sol)
         self.read_pending.add(i)
         self._foreign(i)
@@ -347,10 +355,80 @@ def interleavings(ctx):
     ctx.count(interleave_body.counted, ["enumerated-interleavings"], nontrivial=interleave_body.counted)
 
 
-SUBCHECKS = {"machine": machine, "interleavings": interleavings}
+# ------------------------------------------------------------------ two solvers on ONE SolverParameters object
+
+@st.composite
+def pair_cases(draw):
+    """Two problems and one parameter set; half of the time the parameter set pushes the first solver to the float
+    resolution of the curve coordinate (the method's own 'outside of interval' branch)."""
+    if draw(st.booleans()):
+        ra, params = draw(gen.resolution_case())
+        params = dict(params, itersLimit=draw(st.sampled_from([70, 120])))
+    else:
+        ra = draw(gen.problem_recipe(dims=(1, 2, 3)))
+        params = {"r": draw(gen.r_values), "eps": draw(gen.eps_values(ra["n"], 10, cheap=False)),
+                  "itersLimit": draw(st.sampled_from([5, 20, 40]))}
+        if draw(st.integers(0, 3)) == 0:
+            params["refine"] = True
+    rb = draw(gen.problem_recipe(dims=(1, 2, 3)))
+    ra, rb = dict(ra, density=10), dict(rb, density=10)
+    ops = draw(st.permutations(["solveA", "solveB", "stepA", "stepB"]))
+    return {"a": ra, "b": rb, "params": params, "ops": list(ops), "k": draw(st.sampled_from([1, 3, 7]))}
+
+
+def drive_pair(case, shared):
+    """Logs and results of A and B under the given call order; shared=True: both solvers hold the same
+    SolverParameters object, shared=False: each its own object with the same values."""
+    p = case["params"]
+    refine = bool(p.get("refine"))
+    a = Run(case["a"], p, record=False, refine=refine)
+    b = Run(case["b"], p, record=False, refine=refine, sp_obj=a.sp if shared else None)
+    runs = {"A": a, "B": b}
+    done = {"A": False, "B": False}
+    for op in case["ops"]:
+        who = op[-1]
+        r = runs[who]
+        try:
+            if op.startswith("solve"):
+                r.solve()
+                done[who] = True
+            elif not done[who]:
+                r.step(case["k"])
+        except Exception as e:
+            if "outside of interval" not in str(e):
+                raise
+            done[who] = True
+    out = {}
+    for who, r in runs.items():
+        sol = r.results()
+        out[who] = ([(y, v) for _, y, v in r.problem.log],
+                    (best_of(sol), sol.numberOfGlobalTrials, sol.numberOfLocalTrials) if r.problem.log else None)
+    return out
+
+
+def pair_body(case):
+    own = drive_pair(case, shared=False)
+    shared = drive_pair(case, shared=True)
+    for who in ("A", "B"):
+        if shared[who] != own[who]:
+            fail("two solvers holding the same SolverParameters object, calls %r (k=%d): solver %s makes %d "
+                 "evaluations / returns %r; with a parameters object of its own (same values) %d / %r" %
+                 (case["ops"], case["k"], who, len(shared[who][0]), shared[who][1], len(own[who][0]), own[who][1]))
+    res = case["params"]["eps"] < 1e-12
+    return True, ["pair:" + ("float-resolution" if res else "ordinary") + (":refine" if case["params"].get("refine") else "")]
+
+
+def shared_pairs(ctx):
+    hyp_run(ctx, pair_cases(), pair_body, ctx.budget, shrink_calls=60)
+
+
+SUBCHECKS = {"machine": machine, "interleavings": interleavings, "shared_pairs": shared_pairs}
 
 
 def replay(kind, case):
+    if kind == "shared_pairs":
+        pair_body(case)
+        return
     if kind == "machine":
         replay_steps(case["steps"])
     else:
